@@ -12,6 +12,7 @@ open Hls.Proto Hls.Queue
 structure St where
   mode    : Mode := .traditional
   n       : Nat := 1
+  nCode   : Bool := false
   started : Bool := false
   cfg     : Cfg := init
 
@@ -38,6 +39,7 @@ def parseInit (st : St) (ws : List String) : Option St :=
     match w.splitOn "=" with
     | ["mode", "trad"] => some { st with mode := .traditional }
     | ["mode", "ll"] => some { st with mode := .lowLatency }
+    | ["n", "code"] => some { st with n := Hls.Gen.waitBelowArg, nCode := true }
     | ["n", v] => do
       let k ← v.toNat?
       if k ≤ 1000 then some { st with n := k } else none
@@ -54,7 +56,7 @@ def step (st : St) (line : String) : St × List String :=
   | "init" :: rest =>
     if st.started then (st, ["bad-op"])
     else match parseInit st rest with
-      | some st' => (st', [s!"init mode={fmtMode st'.mode} n={st'.n}"])
+      | some st' => (st', [s!"init mode={fmtMode st'.mode} n={st'.n}" ++ (if st'.nCode then " code" else "")])
       | none => (st, ["bad-op"])
   | ws =>
     let op : Option (Op × String) := match ws with
